@@ -16,10 +16,19 @@
      what the frame's branch says, and  Rm p' key (members (exec … frame …) q).
 
    A run-time panic of the generated code (the stored value is not a []string)
-   is excluded by Rm; C02_gen_panics_only_on_foreign_value states when it happens. *)
+   is excluded by Rm; C02_gen_panics_only_on_foreign_value states when it happens.
+
+   Audit 2 (after the section): the squares restated for the step function the
+   suites' request threads use today (Model2.exec2 under [head]:
+   C02_gen_SAdd_stream, C02_gen_SRem_FDecRem_stream), and the hypothesis
+   [enc_inj] of the two SRem squares discharged for the encoding the code uses,
+   "<expiry>::<request id>::<instance id>" (C02_gen_SRem_real_encoding, by
+   Property4.C02_member_encoding_injective).  The squares are per frame; they
+   are not lifted to runs. *)
 From Coq Require Import List ZArith Bool Lia.
 From Verif Require Import Lib.GoSem C02.Model.
 From Verif Require C02.Gen.
+From Verif Require C02.Model2 C02.Proofs7 C02.Model4 C02.Property4.
 Import ListNotations.
 Open Scope Z_scope.
 
@@ -277,6 +286,92 @@ Proof.
 Qed.
 
 End Encoding.
+
+(* ---------------------------------------------------------------- streams *)
+
+(* The request threads of both suites step with [Model2.exec2 c s (Req r) r
+   (skey v r sq)] (Model2.v), a copy of [Model.exec] that keeps the two
+   identities of a stream apart.  Under [head] the key is the transaction id
+   and the copy IS [exec] (Proofs7.exec2_same): the squares of the two
+   request-thread frames, for the function the suites evaluate.  (GC threads
+   still step with [Model.exec]: C02_gen_SRem_GItem / C02_gen_SMembers_GSnap
+   as they are.  Nothing is claimed for [seeded7], where the key is not the
+   thread's own id.) *)
+Theorem C02_gen_SAdd_stream : forall enc c s r sq q e rest p key,
+  key <> [] ->
+  Rm enc p key (members s q) ->
+  exists p',
+    Gen.AtomicSAddWithMaxValuesAllowed p key (enc (e, r)) (cmax c q)
+      = Normal p' (Z.of_nat (length (members s q)) <? cmax c q, ErrNil)
+    /\ Rm enc p' key (members (Model2.exec2 c s (Req r) r (Model2.skey Model2.head r sq) (FSAdd q e) rest) q)
+    /\ frame_ok p p' key.
+Proof.
+  intros enc c s r sq q e rest p key Hk HR.
+  change (Model2.skey Model2.head r sq) with r. rewrite Proofs7.exec2_same.
+  exact (C02_gen_SAdd enc c s (Req r) q e rest p key Hk HR).
+Qed.
+Print Assumptions C02_gen_SAdd_stream.
+
+Theorem C02_gen_SRem_FDecRem_stream : forall enc, (forall a b, enc a = enc b -> a = b) ->
+  forall c s r sq q e rest p key,
+  key <> [] ->
+  Rm enc p key (members s q) ->
+  exists p',
+    Gen.SRem p key (enc (e, r)) = Normal p' ErrNil
+    /\ Rm enc p' key (members (Model2.exec2 c s (Req r) r (Model2.skey Model2.head r sq) (FDecRem q e) rest) q)
+    /\ frame_ok p p' key.
+Proof.
+  intros enc enc_inj c s r sq q e rest p key Hk HR.
+  change (Model2.skey Model2.head r sq) with r. rewrite Proofs7.exec2_same.
+  exact (C02_gen_SRem_FDecRem enc enc_inj c s (Req r) q e rest p key Hk HR).
+Qed.
+Print Assumptions C02_gen_SRem_FDecRem_stream.
+
+(* ---------------------------------------------------------------- the real encoding *)
+
+(* generateMember: "<expiry>::<request id>::<instance id>" (Model4.render), for
+   a decimal rendering [dec] and a rendering [ridof] of the request ids *)
+Definition enc_of (dec : Z -> Model4.str) (ridof : Z -> Model4.str) (inst : Model4.str)
+  (a : Z * Z) : gostring := Model4.render dec (fst a) (ridof (snd a)) inst.
+
+(* [enc_inj] is not a free hypothesis: for EVERY instance id it follows from
+   what is trusted about fmt %d / strconv.ParseInt ([dec_ok]) and from request
+   ids being ':'-free and distinct — the two SRem squares for the encoding the
+   code uses *)
+Theorem C02_gen_SRem_real_encoding :
+  forall dec undec, Model4.dec_ok dec undec ->
+  forall (ridof : Z -> Model4.str) (inst : Model4.str),
+    (forall r, Model4.cfree (ridof r)) -> (forall r r', ridof r = ridof r' -> r = r') ->
+    let enc := enc_of dec ridof inst in
+    (forall c s t q e rest p key, key <> [] -> Rm enc p key (members s q) ->
+       exists p', Gen.SRem p key (enc (e, self t)) = Normal p' ErrNil
+         /\ Rm enc p' key (members (exec c s t (FDecRem q e) rest) q) /\ frame_ok p p' key) /\
+    (forall c s t q e r' rest p key, key <> [] -> (e <=? now s) = true -> Rm enc p key (members s q) ->
+       exists p', Gen.SRem p key (enc (e, r')) = Normal p' ErrNil
+         /\ Rm enc p' key (members (exec c s t (GItem q e r') rest) q) /\ frame_ok p p' key).
+Proof.
+  intros dec undec D ridof inst Hf Hi enc.
+  assert (I : forall a b, enc a = enc b -> a = b)
+    by exact (Property4.C02_member_encoding_injective dec undec D ridof inst Hf Hi).
+  split; [exact (C02_gen_SRem_FDecRem enc I)|exact (C02_gen_SRem_GItem enc I)].
+Qed.
+Print Assumptions C02_gen_SRem_real_encoding.
+
+(* its hypotheses are satisfiable (one-code renderings, as Property4.C02_ex_dec_ok),
+   with an instance id that contains the separator: "d::g" *)
+Definition ridof1 (r : Z) : Model4.str := [if r <? 58 then r else r + 1].
+
+Example C02_ex_real_encoding :
+  Model4.dec_ok Model4.dec1 Model4.undec1 /\
+  (forall r, Model4.cfree (ridof1 r)) /\ (forall r r', ridof1 r = ridof1 r' -> r = r') /\
+  enc_of Model4.dec1 ridof1 [100; 58; 58; 103] (7, 3) = [7; 58; 58; 3; 58; 58; 100; 58; 58; 103].
+Proof.
+  split; [exact Property4.C02_ex_dec_ok|]. split; [|split; [|reflexivity]].
+  - intros r. unfold ridof1, Model4.cfree. constructor; [|constructor].
+    destruct (Z.ltb_spec r 58); lia.
+  - intros r r'. unfold ridof1. intros H. inversion H as [H1].
+    destruct (Z.ltb_spec r 58), (Z.ltb_spec r' 58); lia.
+Qed.
 
 (* when the generated code panics: exactly when something that is not a []string
    is stored under the key (excluded by Rm; the quota code never does it) *)
